@@ -314,3 +314,5 @@ REGISTRY["C01"]["assumptions"] = ["shooting denominator non-zero", "exact real/c
 REGISTRY["C06"]["theorems"] += T("Proofs.C06c", "BLDFM.C06", ["impulse_padSrc", "fields_indep_source", "impulse_roll", "footprint_point_reflection"])
 REGISTRY["C06"]["partial_clauses"] = ["float rounding (tower shift, source shift and the point-reflection clause are theorems through the whole model pipeline: tower_shift_field, "
                                       "source_shift_field, footprint_point_reflection; re-centring at phase level: recentre_phase)"]
+REGISTRY["C13"]["theorems"] += T("Proofs.C13b", "BLDFM.C13", ["pointMeasurement_eq_sum", "idealSource_binary", "idealSource_nonneg", "linspaceEnd_mirror", "idealSource_centred_symmetric"])
+REGISTRY["C02"]["theorems"] += T("Proofs.C02d", "BLDFM.C02", ["sum_window", "padded_sum_eq_user_sum", "point_measurement_reciprocity"])
